@@ -44,7 +44,11 @@ Inductive case :=
 | CRec (lenlim limit : Z) (ops : list op) (o : obs)
 (* calls before Clone, calls after Clone applied to the original (false) or to the clone (true);
    observation of the clone and of the original at the end *)
-| CClone (lenlim limit : Z) (ops1 ops2 : list op) (on_clone : bool) (o_clone o_orig : obs).
+| CClone (lenlim limit : Z) (ops1 ops2 : list op) (on_clone : bool) (o_clone o_orig : obs)
+(* calls before Clone, then an interleaved schedule of calls on the original (false) and on the clone
+   (true); what the original and the clone show after EVERY step.  Compared with the aliasing
+   model (heap of overflow arrays), so a shared backing array diverges on the model's own terms. *)
+| CAlias (lenlim limit : Z) (ops1 : list op) (sched : list (bool * op)) (trace : list (obs * obs)).
 
 Definition flag (b : bool) (code : N) : list N := if b then [] else [code].
 
@@ -65,6 +69,25 @@ Definition judge (lenlim limit : Z) (ops : list op) (o : obs) : list N :=
   else if (limit =? 0)%Z && spec_ok lenlim (-1) ops o then [V_KNOWN 1]
   else [V_SPECFAIL].
 
+(** Specification along a schedule: each record must be what its own calls alone produce. *)
+Fixpoint judge_trace (lenlim limit : Z) (po pc : list op) (sched : list (bool * op)) (trace : list (obs * obs)) : list N :=
+  match sched, trace with
+  | [], [] => []
+  | (w, o) :: s, (oo, oc) :: t =>
+      let po' := if w then po else po ++ [o] in
+      let pc' := if w then pc ++ [o] else pc in
+      judge lenlim limit po' oo ++ judge lenlim limit pc' oc ++ judge_trace lenlim limit po' pc' s t
+  | _, _ => [V_SPECFAIL]
+  end.
+
+Definition check_alias (lenlim limit : Z) (ops1 : list op) (sched : list (bool * op)) (trace : list (obs * obs)) : list N :=
+  flag (list_eqb (fun a b => obs_eqb (fst a) (fst b) && obs_eqb (snd a) (snd b))
+          (clone_trace lenlim limit (run_model lenlim limit ops1) sched) trace) V_MISMATCH ++
+  (match judge_trace lenlim limit ops1 ops1 sched trace with
+   | [] => []
+   | l => if forallb (fun c => 100 <? c) l then [V_KNOWN 1] else [V_SPECFAIL]
+   end).
+
 Definition check_case (c : case) : list N :=
   match c with
   | CRec lenlim limit ops o =>
@@ -80,6 +103,7 @@ Definition check_case (c : case) : list N :=
        | [], [] => []
        | a, b => if forallb (fun c => 100 <? c) (a ++ b) then [V_KNOWN 1] else [V_SPECFAIL]
        end)
+  | CAlias lenlim limit ops1 sched trace => check_alias lenlim limit ops1 sched trace
   end.
 
 Definition run (cs : list case) : list (N * N) := index_from 0 check_case cs.
